@@ -7,11 +7,20 @@
    calls) and x all histories of <= 3 calls (+ re-seedings) over the history alphabet.  The constant
    parameter vectors (weights / pref_vector / leak) are part of the kind, have entries no binary
    format represents, and histories present BOTH dtypes to one instance whatever the parameter's
-   dtype (float32 call(s) then float64 and the reverse).
+   dtype (float32 call(s) then float64 and the reverse), low-precision matrices, all-zero matrices.
+   History SHAPES: new tensors (hist); ONE tensor object rewritten in place between the calls (hbuf:
+   copy_, mul_, row negation, zero_); short-lived temporaries of one shape, widths 65..4100 (htmp);
+   new tensor objects over the same external memory (hext); calls of OTHER instances - the same class
+   with the same / alternate parameters (reg_eps, norm_eps, c, preference vector, leak, weights) and
+   other classes with alternate parameters - before the call (hoth).
 2. S->C: every exported history is executed on ONE real instance: outcome class, length, dtype,
    finiteness, input bit-identical afterwards, result within the spread of three history-free repeats
    on fresh instances after the same seed (also where the outcome itself is not demanded: same
-   exception class / same dtype and bits as a fresh instance); single calls additionally give homogeneity
+   exception class / same dtype and bits as a fresh instance).  The history-free repeats of every
+   history shape are obtained in processes of their own, forked from a process in which no aggregator
+   ever ran (one per reference), the histories with other instances run each in a process of its own,
+   the others in one process per kind: state shared by the instances of a process cannot reach the
+   reference.  Single calls additionally give homogeneity
    A(2^e J0) 2^-e = A(J0) for every scale exponent of the class alphabet (statement's range:
    2^-39..2^48 float32, 2^-332..2^331 float64) where the model demands it, with a derived allowance.
 3. C->S: seeded random histories with random kinds / shapes / contents / scales are run, logged and
@@ -28,7 +37,6 @@ import torch
 
 from .. import aggcontract_lib as lib
 from ..core import Ctx, MachineryError
-from ..par import pmap
 from ..tlc import run_tlc
 
 PID = "C11"
@@ -51,7 +59,14 @@ def hist_text(scn: dict, upto: int | None = None) -> str:
     for i, st in enumerate(scn["steps"], 1):
         if upto is not None and i > upto:
             break
-        parts.append(f"seed({st['s']})" if st["op"] == "seed" else f"call({lib.class_text(st['c'])})")
+        if st["op"] == "seed":
+            parts.append(f"seed({st['s']})")
+        elif st["op"] == "other":
+            parts.append(f"other[{st['k']['name']}]({lib.class_text(st['c'])})")
+        else:
+            how = "" if st.get("pres", "new") == "new" else \
+                f"[{st['pres']}{':' + st['via'] if st.get('via', '-') != '-' else ''}]"
+            parts.append(f"call{how}({lib.class_text(st['c'])})")
     return ";".join(parts)
 
 
@@ -59,26 +74,9 @@ def _inject(scn: dict) -> dict:
     """Self-contained copy for a replay file: base matrices inlined."""
     s = json.loads(json.dumps(scn))
     for st in s["steps"]:
-        if st["op"] == "call" and len(st["c"]["dims"]) == 2 and "J" not in st["c"]:
+        if st["op"] in ("call", "other") and len(st["c"]["dims"]) == 2 and "J" not in st["c"]:
             st["c"]["J"] = lib.base_matrix(st["c"])
     return s
-
-
-def _run(item):
-    import time
-    scn, seed = item
-    lib._SEED = seed
-    t0 = time.perf_counter()
-    r = lib.run_scenario(scn)
-    r["cpu_s"] = time.perf_counter() - t0
-    return r
-
-
-def _episode(item):
-    ep, seed = item
-    lib._SEED = seed
-    lib._FRESH.clear()
-    return lib.random_episode(ep, seed)
 
 
 def report_scenario_failures(ctx: Ctx, scn: dict, res: dict) -> None:
@@ -178,7 +176,8 @@ def check_homogeneity(ctx: Ctx, singles: list[tuple[dict, dict]]) -> None:
 
 def validate_episodes(ctx: Ctx, episodes: list[dict]) -> dict:
     slim = [{"ep": e["ep"], "kind": e["kind"],
-             "steps": [{"op": s["op"], "s": s["s"], "c": s["c"], "obs": s["obs"]} for s in e["steps"]]}
+             "steps": [{"op": s["op"], "s": s["s"], "k": s["k"], "c": s["c"], "pres": s["pres"], "via": s["via"],
+                        "obs": s["obs"]} for s in e["steps"]]}
             for e in episodes]
     with tempfile.TemporaryDirectory(prefix="verif_c11_") as d:
         path = os.path.join(d, "episodes.json")
@@ -201,9 +200,12 @@ def validate_episodes(ctx: Ctx, episodes: list[dict]) -> dict:
             continue
         cj = dict(st["c"], J=st.get("J"))
         key = f"trace:{kind['name']}:{rj['clause']}:{lib.class_text(st['c'])}:{st.get('J')}"
-        ctx.violation(key, f"recorded history of {kind['name']}: call {rj['at']} on {lib.class_text(st['c'])} "
-                           f"(base {st.get('J')}) observed {st['obs']} – rejected by AggContract, clause "
-                           f"'{rj['clause']}' (contract: {rj['want']})",
+        before = ";".join(q["s"] if q["op"] == "seed" else
+                          (f"other[{q['k']['name']}]" if q["op"] == "other" else f"call[{q['pres']}:{q['via']}]")
+                          + f"({lib.class_text(q['c'])})" for q in e["steps"][:rj["at"] - 1])
+        ctx.violation(key, f"recorded history of {kind['name']}: step {rj['at']}, call[{st['pres']}:{st['via']}] on "
+                           f"{lib.class_text(st['c'])} (base {st.get('J')}) after [{before}] observed {st['obs']} – "
+                           f"rejected by AggContract, clause '{rj['clause']}' (contract: {rj['want']})",
                       {"kind": "episode", "ep": e["ep"], "seed": ctx.seed, "class": cj, "clause": rj["clause"]})
     for dr in res.prints.get("DRIFT", [])[:5]:
         ctx.report_drift("AggContract", f"order of checks: model says {dr['impl']}, code did {dr['seen']}")
@@ -212,41 +214,62 @@ def validate_episodes(ctx: Ctx, episodes: list[dict]) -> dict:
     if len(episodes) >= 100 and not summ.get("memo_after_other_dtype") and not summ["rejected"]:
         raise MachineryError("vacuous trace validation: no recorded history of a kind with a parameter vector "
                              "mixed dtypes before a memo comparison")
+    if len(episodes) >= 100 and not summ["rejected"]:
+        empty = [k for k, v in summ["shapes"].items() if not v and k != "temporary_same_address"]
+        if empty:
+            raise MachineryError(f"vacuous trace validation: no memo comparison recorded for history shapes {empty}")
     return summ
 
 
 def run(ctx: Ctx, replay: str | None) -> None:
     torch.manual_seed(ctx.seed)
-    ctx.rule = ("one case = (aggregator kind, history of seedings and calls on input classes); all histories of <= 3 "
-                "calls over the history alphabet and all single calls over the full class alphabet are enumerated by "
-                "TLC and replayed; non-trivial = a rejected class, a non-zero class at a scale exponent != 0 whose "
-                "homogeneity is demanded, or a history of >= 2 calls (both dtypes on one instance, also for kinds with a "
-                "parameter vector, whose entries no binary format represents) whose last call returns a vector that is compared "
-                "with a fresh instance")
+    ctx.rule = ("one case = (aggregator kind, history of seedings, calls on input classes - as new tensors, through one "
+                "tensor object rewritten in place, as temporaries, as re-wrapped memory - and calls of other instances); "
+                "all histories of <= 3 calls over the history alphabets of the five history shapes and all single calls "
+                "over the full class alphabet are enumerated by TLC and replayed; non-trivial = a rejected class, a "
+                "non-zero class at a scale exponent != 0 whose homogeneity is demanded, or a history of >= 2 steps (both "
+                "dtypes on one instance, also for kinds with a parameter vector, whose entries no binary format "
+                "represents) whose last call returns a vector that is compared with a fresh instance in a fresh process")
     ctx.assumptions += [
         "power-of-two scaling of small integer matrices is exact in float32/float64 within the stated range",
-        "what a kind with a tensor parameter returns for a matrix of the OTHER dtype is not demanded (today UPGrad, "
-        "DualProj, GradDrop answer in the input's dtype; Constant, AlignedMTL, ConFIG raise RuntimeError) - only that it "
-        "does what a fresh instance does and leaves no trace for later calls; single calls and homogeneity use the "
-        "parameter's dtype",
+        "a kind with a tensor parameter and a matrix of the OTHER float dtype: UPGrad, DualProj, GradDrop answer in the "
+        "input's dtype on the unchanged tree (measured; drift is reported if not), so a finite vector in the input's "
+        "dtype is demanded of them; Constant, AlignedMTL, ConFIG raise RuntimeError there and what they return is not "
+        "demanded - only that the call does what a fresh instance does and leaves no trace for later calls; "
+        "homogeneity uses the parameter's dtype",
+        "bfloat16 / float16 matrices: the statement's scale ranges name float32 and float64 only, so the outcome is not "
+        "demanded (several classes hit missing CPU kernels) - only independence of history and no trace for later calls",
+        "a fresh state of the process-wide configuration = a process forked from the check's main process, which "
+        "imports torchjd and never calls an aggregator; three history-free repeats per reference run in one such "
+        "process (the first is its first aggregator call)",
+        "temporaries: whether the allocator hands the same block out again is a property of the build (counted in "
+        "tmp_addr_same); re-wrapped external memory gives the same address by construction",
         "ConFIG is outside the rejection clause for non-2-d / non-finite inputs (DESIGN.md 9); its row check is covered",
         "homogeneity of pinv/eigh based aggregators is only compared where the model decides the rank exactly and "
         "no exactly-zero singular value competes with rounding noise (others counted as rank_ambiguous)",
         "CAGrad homogeneity allowance is predicate level (conic solver tolerance), all others derived (see hom_allowance)",
     ]
     lib.configure(None, ctx.seed)
+    if not replay:
+        lib.start_pool()          # spawners of the isolated processes: forked while this process is small and pristine
+    try:
+        _run(ctx, replay)
+    finally:
+        lib.stop_pool()
+
+
+def _run(ctx: Ctx, replay: str | None) -> None:
     if replay:
         rec = json.load(open(replay))
         p = rec["payload"]
         if p["kind"] == "scenario":
-            report_scenario_failures(ctx, p["scenario"], lib.run_scenario(p["scenario"]))
+            report_scenario_failures(ctx, p["scenario"], lib.run_scenarios_isolated([p["scenario"]], ctx.seed)[0])
         elif p["kind"] == "hom":
             pairs = [(s, lib.run_scenario(s)) for s in (p["reference"], p["scenario"])]
             check_homogeneity(ctx, pairs)
         else:
-            lib._SEED = p["seed"]
             ctx.seed = p["seed"]
-            validate_episodes(ctx, [lib.random_episode(p["ep"], p["seed"])])
+            validate_episodes(ctx, lib.run_episodes_isolated([p["ep"]], p["seed"]))
         return
 
     cfg = "MC_AggContract_quick.cfg" if ctx.tier == "quick" else "MC_AggContract_thorough.cfg"
@@ -255,7 +278,7 @@ def run(ctx: Ctx, replay: str | None) -> None:
     if res.violated:
         raise MachineryError(f"AggContract: the implementation layer no longer satisfies {res.violated}; "
                              f"the model must be re-established\n{res.cex[:1500]}")
-    for act in ("CallAny", "Seed"):
+    for act in ("CallAny", "Seed", "OtherAny"):
         if not res.coverage.get(act):
             raise MachineryError(f"vacuous model check: action {act} never taken")
     scenarios = res.prints.get("SCN", [])
@@ -263,7 +286,8 @@ def run(ctx: Ctx, replay: str | None) -> None:
     if not scenarios or not cat:
         raise MachineryError("no scenario / catalogue exported by TLC")
     lib.configure(cat, ctx.seed)
-    bad = lib.check_param_table(res.prints.get("PAR", [None])[0], scenarios)
+    bad = lib.check_param_table(res.prints.get("PAR", [None])[0], res.prints.get("PARALT", [None])[0],
+                                res.prints.get("ALT", [None])[0], scenarios)
     if bad:
         raise MachineryError("parameter vectors of the model and of the binding differ: " + "; ".join(bad))
     check_mixed_dtype_coverage(scenarios)
@@ -271,10 +295,16 @@ def run(ctx: Ctx, replay: str | None) -> None:
     if bad:
         raise MachineryError("catalogue bounds of the model do not hold: " + "; ".join(bad))
     kinds = {s["kind"]["name"] for s in scenarios}
-    for k in kinds:
-        exp = {st["expect"] for s in scenarios if s["kind"]["name"] == k for st in s["steps"] if st["op"] == "call"}
-        if "vector" not in exp or not ({"ValueError", "unspecified"} & exp):
+    exps: dict = {}
+    for s in scenarios:
+        exps.setdefault(s["kind"]["name"], set()).update(st["expect"] for st in s["steps"] if st["op"] == "call")
+    altnames = {s["kind"]["name"] for s in scenarios if s["kind"]["alt"]}      # only occur in "hoth" histories
+    for k, exp in exps.items():
+        if "vector" not in exp or not (k in altnames or ({"ValueError", "unspecified"} & exp)):
             raise MachineryError(f"vacuous coverage for kind {k}: expectations {exp}")
+    modes = {s["mode"] for s in scenarios}
+    if modes != {"single", "hist", "hbuf", "htmp", "hext", "hoth"}:
+        raise MachineryError(f"history shapes exported: {sorted(modes)}")
     ctx.exhaustive = True
     ctx.extra["scenarios_exported"] = len(scenarios)
     ctx.extra["kinds"] = sorted(kinds)
@@ -282,14 +312,24 @@ def run(ctx: Ctx, replay: str | None) -> None:
     scenarios.sort(key=lambda s: (s["mode"], s["kind"]["name"], hist_text(s)))
     import time
     t0 = time.time()
-    results = pmap(_run, [(s, ctx.seed) for s in scenarios], chunksize=64)
+    results = lib.run_scenarios_isolated(scenarios, ctx.seed)
     ctx.extra["replay_wall_s"] = round(time.time() - t0, 1)
+    ctx.extra["references_from_pristine_processes"] = len(lib._REF)
+    # the random histories run before anything below calls an aggregator in THIS process
+    n_ep = 400 if ctx.tier == "quick" else 4000
+    episodes = lib.run_episodes_isolated([i + 1 for i in range(n_ep)], ctx.seed)
+    ctx.extra["driver_wall_s"] = round(time.time() - t0 - ctx.extra["replay_wall_s"], 1)
+    ctx.extra["scenarios_by_history_shape"] = {m: sum(1 for s in scenarios if s["mode"] == m) for m in sorted(modes)}
     singles = []
     for scn, r in zip(scenarios, results):
         ctx.evaluations += r["calls"]
         ctx.traces += 1
         ctx.count("memo_compared", r["memo_checked"])
         ctx.count("memo_compared_after_call_in_other_dtype", r["memo_xdt"])
+        for flag, n in r["flags"].items():
+            ctx.count("memo_compared:" + flag, n)
+        for a, n in r["addr"].items():
+            ctx.count(f"{scn['mode']}_address:{a}", n)
         if r["memo_xdt"] and scn["param"]:
             ctx.count("memo_mixed_dtype_histories:" + scn["kind"]["agg"])
         cpu = ctx.extra.setdefault("replay_cpu_s_by_agg", {})
@@ -300,8 +340,8 @@ def run(ctx: Ctx, replay: str | None) -> None:
             singles.append((scn, r))
             if calls[0]["expect"] == "ValueError":
                 ctx.nontrivial(("reject", scn["kind"]["name"], lib.class_text(calls[0]["c"])))
-        elif len(calls) >= 2 and calls[-1]["expect"] == "vector" and r["memo_checked"]:
-            ctx.nontrivial(("hist", scn["kind"]["name"], hist_text(scn)))
+        elif len(scn["steps"]) >= 2 and calls[-1]["expect"] == "vector" and r["memo_checked"]:
+            ctx.nontrivial((scn["mode"], scn["kind"]["name"], hist_text(scn)))
     check_homogeneity(ctx, singles)
     # outside the rejection clause (DESIGN.md 9): what ConFIG does with inputs it does not validate
     seen = set()
@@ -337,13 +377,19 @@ def run(ctx: Ctx, replay: str | None) -> None:
             raise MachineryError(f"vacuous replay: no mixed-dtype history of {agg} with a parameter vector reached a "
                                  "memo comparison")
 
-    n_ep = 400 if ctx.tier == "quick" else 4000
-    episodes = pmap(_episode, [(i + 1, ctx.seed) for i in range(n_ep)], chunksize=16)
+    if not ctx.violations:
+        for flag in ("rewritten", "oth", "othpar", "zerobefore", "ext_addr_same"):
+            if not ctx.counters.get("memo_compared:" + flag):
+                raise MachineryError(f"vacuous replay: no memo comparison for history shape '{flag}'")
+        if not ctx.counters.get("htmp_address:same"):
+            raise MachineryError("vacuous replay: no two consecutive temporaries of any width shared an address on "
+                                 "this build (the htmp widths must be re-measured)")
+
     ctx.evaluations += sum(1 for e in episodes for s in e["steps"] if s["op"] == "call")
-    ctx.extra["driver_wall_s"] = round(time.time() - t0 - ctx.extra["replay_wall_s"], 1)
     validate_episodes(ctx, episodes)
     for e in episodes[:2]:
         ctx.sample({"episode": {"kind": e["kind"]["name"],
                                 "steps": [s["s"] if s["op"] == "seed" else
-                                          [lib.class_text(s["c"]), s["obs"]["outcome"], s["obs"]["eqfresh"]]
+                                          [s["op"], s["pres"], s["via"], lib.class_text(s["c"]), s["obs"]["outcome"],
+                                           s["obs"]["eqfresh"]]
                                           for s in e["steps"]]}})
